@@ -385,3 +385,76 @@ Proof.
   apply in_map_iff in Hin. destruct Hin as (kv & <- & _). cbn [r_id r_gs] in *. subst i.
   apply (stk_gs_join_anywhere (fst kv) k _ v vs Hfr).
 Qed.
+
+(* ------------------------------------------------------------------ column data anywhere in the file: GC, GR, sequence rows *)
+Fixpoint gc_frags (k : str) (its : list item) : list str :=
+  match its with
+  | [] => []
+  | IGC k' v :: r => if str_eqb k' k then v :: gc_frags k r else gc_frags k r
+  | _ :: r => gc_frags k r
+  end.
+Fixpoint gr_frags (i k : str) (its : list item) : list str :=
+  match its with
+  | [] => []
+  | IGR i' k' v :: r => if str_eqb i' i && str_eqb k' k then v :: gr_frags i k r else gr_frags i k r
+  | _ :: r => gr_frags i k r
+  end.
+Fixpoint seq_frags (i : str) (its : list item) : list str :=
+  match its with
+  | [] => []
+  | ISeq i' v :: r => if str_eqb i' i then v :: seq_frags i r else seq_frags i r
+  | _ :: r => seq_frags i r
+  end.
+Definition cat_all (o : option str) (vs : list str) : option str := fold_left (fun o v => Some (cat v o)) vs o.
+Lemma cat_all_some x vs : cat_all (Some x) vs = Some (x ++ concat vs).
+Proof.
+  revert x. induction vs as [|v vs IH]; intros x; [simpl; rewrite app_nil_r; reflexivity|].
+  unfold cat_all in *. simpl. rewrite IH, <- app_assoc. reflexivity.
+Qed.
+Lemma cat_all_none v vs : cat_all None (v :: vs) = Some (concat (v :: vs)).
+Proof. unfold cat_all. cbn [fold_left cat]. apply cat_all_some. Qed.
+
+Theorem gc_all_frags k its : forall s,
+  lookup k (s_gc (fold_left step its s)) = cat_all (lookup k (s_gc s)) (gc_frags k its).
+Proof.
+  induction its as [|it its IH]; intros s; [reflexivity|]. cbn [fold_left]. rewrite IH. clear IH.
+  destruct it; destruct s as [gf gc gs gr sq]; cbn [step s_gc gc_frags]; try reflexivity.
+  destruct (str_eqb k0 k) eqn:E.
+  - apply str_eqb_eq in E. subst k0. rewrite lookup_upd_same. reflexivity.
+  - rewrite lookup_upd_other; [reflexivity|]. intros Heq. subst k0. rewrite str_eqb_refl in E. discriminate.
+Qed.
+Theorem seq_all_frags i its : forall s,
+  lookup i (s_seqs (fold_left step its s)) = cat_all (lookup i (s_seqs s)) (seq_frags i its).
+Proof.
+  induction its as [|it its IH]; intros s; [reflexivity|]. cbn [fold_left]. rewrite IH. clear IH.
+  destruct it; destruct s as [gf gc gs gr sq]; cbn [step s_seqs seq_frags]; try reflexivity.
+  destruct (str_eqb k i) eqn:E.
+  - apply str_eqb_eq in E. subst k. rewrite lookup_upd_same. reflexivity.
+  - rewrite lookup_upd_other; [reflexivity|]. intros Heq. subst k. rewrite str_eqb_refl in E. discriminate.
+Qed.
+Theorem gr_all_frags i k its : forall s,
+  lookup k (getd i (s_gr (fold_left step its s))) = cat_all (lookup k (getd i (s_gr s))) (gr_frags i k its).
+Proof.
+  induction its as [|it its IH]; intros s; [reflexivity|]. cbn [fold_left]. rewrite IH. clear IH.
+  destruct it; destruct s as [gf gc gs gr sq]; cbn [step s_gr gr_frags]; try reflexivity.
+  destruct (str_eqb s0 i) eqn:E1.
+  - apply str_eqb_eq in E1. subst s0. unfold getd at 1. rewrite lookup_upd_same. cbn [odict]. unfold sub_upd.
+    fold (odict (lookup i gr)). fold (getd i gr). destruct (str_eqb k0 k) eqn:E2; cbn [andb].
+    + apply str_eqb_eq in E2. subst k0. rewrite lookup_upd_same. reflexivity.
+    + rewrite lookup_upd_other; [reflexivity|]. intros Heq. subst k0. rewrite str_eqb_refl in E2. discriminate.
+  - cbn [andb]. unfold getd at 1. rewrite lookup_upd_other; [reflexivity|].
+    intros Heq. subst s0. rewrite str_eqb_refl in E1. discriminate.
+Qed.
+(* whatever the placement of the lines (any block layout, markup moved around): every column annotation and every
+   sequence reads as the concatenation of its fragments in file order *)
+Theorem stk_columns_anywhere its :
+  (forall k v vs, gc_frags k its = v :: vs -> lookup k (s_gc (fold_left step its st0)) = Some (concat (v :: vs)))
+  /\ (forall i v vs, seq_frags i its = v :: vs -> lookup i (s_seqs (fold_left step its st0)) = Some (concat (v :: vs)))
+  /\ (forall i k v vs, gr_frags i k its = v :: vs ->
+        lookup k (getd i (s_gr (fold_left step its st0))) = Some (concat (v :: vs))).
+Proof.
+  split; [|split].
+  - intros k v vs H. rewrite gc_all_frags, H. apply cat_all_none.
+  - intros i v vs H. rewrite seq_all_frags, H. apply cat_all_none.
+  - intros i k v vs H. rewrite gr_all_frags, H. unfold getd at 1. cbn [st0 s_gr lookup odict]. apply cat_all_none.
+Qed.
